@@ -484,9 +484,15 @@ func genUnix(t *rapid.T) unixCase {
 	var v gen.JV
 	switch rapid.IntRange(0, 9).Draw(t, "kind") {
 	case 0, 1, 2, 3:
-		switch rapid.IntRange(0, 3).Draw(t, "src") {
+		switch rapid.IntRange(0, 5).Draw(t, "src") {
 		case 0:
-			v = gen.Int(rapid.SampledFrom([]int64{0, 1, -1, 59, 60, 86399, 86400, -86400, 1500000000, 2147483647, 2147483648, -2147483648, -2147483649, 4102444800, -2208988800, 99999999999, -99999999999, -62135596800, 253402300799, math.MinInt64, math.MaxInt64, 1 << 53}).Draw(t, "i"))
+			v = gen.Int(rapid.SampledFrom([]int64{0, 1, -1, 59, 60, 86399, 86400, -86400, 1500000000, 2147483647, 2147483648, -2147483648, -2147483649, 4102444800, -2208988800, 99999999999, -99999999999, -62135596800, 253402300799}).Draw(t, "i"))
+		case 4:
+			// beyond what a float64 holds exactly, and the ends of int64
+			v = gen.Int(rapid.SampledFrom([]int64{1 << 53, 1<<53 + 1, 1<<53 - 1, -(1 << 53), -(1 << 53) - 1, 1<<53 + 3, 1<<62 + 1, -(1 << 62) - 1, 1e18, -1e18, 1e18 + 1, -1e18 - 1, 999999999999999999, 100000000000, -100000000000,
+				math.MaxInt64, math.MaxInt64 - 1, math.MinInt64, math.MinInt64 + 1, math.MaxInt64 - 62135596800, math.MaxInt64 - 62135596801, math.MinInt64 + 62135596800, 9223372036854775295, 1<<63 - 513}).Draw(t, "ibig"))
+		case 5:
+			v = gen.Int(rapid.Int64().Draw(t, "iany"))
 		case 1:
 			v = gen.Int(rapid.Int64Range(-99999999999, 99999999999).Draw(t, "i"))
 		default:
@@ -547,21 +553,26 @@ func unixProp(c unixCase) ev.Outcome {
 		if tv.TypeID != octosql.TypeIDTime {
 			return ev.Fail("time_from_unix(%d) = %s, want a Time", i, showV(tv))
 		}
+		// time_to_unix(time_from_unix(i)) = i is stated for every x: it is demanded on the whole int64 range
+		u, err := toUnix(tv)
+		if err != nil {
+			return ev.Fail("%v", err)
+		}
+		if u != i {
+			return ev.Fail("time_to_unix(time_from_unix(%d)) = %d, want %d back", i, u, i)
+		}
+		if i > 1<<53 || i < -(1<<53) {
+			o.Classes = append(o.Classes, "unix_int_roundtrip_beyond_2^53")
+		}
 		if float64(i) >= unixRange || float64(i) <= -unixRange {
-			o.Classes = append(o.Classes, "unix_int_out_of_range_only_no_crash")
+			// which calendar instant a timestamp beyond +-1e11 s denotes is not asserted (time.Time's own range), only the round trip
+			o.Classes = append(o.Classes, "unix_int_beyond_1e11_roundtrip_only")
 			return o
 		}
 		// the instant i seconds after the epoch, from calendar arithmetic: days*86400 + seconds of day
 		want := time.Date(1970, 1, 1, 0, 0, 0, 0, time.UTC).AddDate(0, 0, int(floorDiv(i, 86400))).Add(time.Duration(i-floorDiv(i, 86400)*86400) * time.Second)
 		if !tv.Time.Equal(want) {
 			return ev.Fail("time_from_unix(%d) = %s, want %s", i, showV(tv), want.Format(time.RFC3339Nano))
-		}
-		u, err := toUnix(tv)
-		if err != nil {
-			return ev.Fail("%v", err)
-		}
-		if u != i {
-			return ev.Fail("time_to_unix(time_from_unix(%d)) = %d", i, u)
 		}
 		o.Classes = append(o.Classes, "unix_int_roundtrip")
 	case "float":
@@ -1171,20 +1182,134 @@ func coalesceProp(r *ev.Rec) func(coCase) ev.Outcome {
 	}
 }
 
+// ---- COALESCE stops at its first non-NULL argument ----------------------------------------------------------------------------
+
+// lazyArg kinds: "val" (Int variable holding I), "null" (variable holding NULL), and three arguments whose evaluation raises a
+// run-time error: "div0" (100 / x with x = 0), "panic" (panic(x)), "assert" (abs(x) with x :: Int | String holding a String, so the
+// type assertion inserted by the typechecker fails).
+type lazyArg struct {
+	Kind string `json:"kind"`
+	I    int64  `json:"i,omitempty"`
+}
+
+type lazyCase struct {
+	Args []lazyArg `json:"args"`
+}
+
+var lazyErrKinds = []string{"div0", "panic", "assert"}
+
+func genLazy(t *rapid.T) lazyCase {
+	n := rapid.IntRange(2, 5).Draw(t, "n")
+	args := make([]lazyArg, n)
+	for i := range args {
+		l := fmt.Sprintf("a%d", i)
+		switch k := rapid.IntRange(0, 8).Draw(t, l+"k"); {
+		case k < 3:
+			args[i] = lazyArg{Kind: "val", I: rapid.SampledFrom([]int64{7, 0, -1, 1, math.MinInt64, math.MaxInt64}).Draw(t, l+"v")}
+		case k < 6:
+			args[i] = lazyArg{Kind: "null"}
+		default:
+			args[i] = lazyArg{Kind: rapid.SampledFrom(lazyErrKinds).Draw(t, l+"err")}
+		}
+	}
+	return lazyCase{Args: args}
+}
+
+func lazyProp(c lazyCase) ev.Outcome {
+	if len(c.Args) == 0 {
+		return ev.Outcome{Discard: true}
+	}
+	fields := make([]physical.SchemaField, len(c.Args))
+	mapping := map[string]string{}
+	exprs := make([]logical.Expression, len(c.Args))
+	values := make([]octosql.Value, len(c.Args))
+	texts := make([]string, len(c.Args))
+	firstVal, firstErr := -1, -1
+	intOrString := octosql.Type{TypeID: octosql.TypeIDUnion}
+	intOrString.Union.Alternatives = []octosql.Type{octosql.Int, octosql.String}
+	for i, a := range c.Args {
+		name := fmt.Sprintf("x%d", i)
+		mapping[name] = name + "_u"
+		v := logical.NewVariable(name)
+		st := eng.Nullable(octosql.Int)
+		switch a.Kind {
+		case "val":
+			values[i], exprs[i], texts[i] = octosql.NewInt(a.I), v, fmt.Sprint(a.I)
+			if firstVal < 0 {
+				firstVal = i
+			}
+		case "null":
+			values[i], exprs[i], texts[i] = octosql.NewNull(), v, "NULL"
+		case "div0":
+			st = octosql.Int
+			values[i], texts[i] = octosql.NewInt(0), "100 / x{=0}"
+			exprs[i] = logical.NewFunctionExpression("/", []logical.Expression{logical.NewConstant(octosql.NewInt(100)), v})
+		case "panic":
+			st = octosql.String
+			values[i], texts[i] = octosql.NewString("boom"), "panic('boom')"
+			exprs[i] = logical.NewFunctionExpression("panic", []logical.Expression{v})
+		case "assert":
+			st = intOrString
+			values[i], texts[i] = octosql.NewString("oops"), "abs(x{:: Int | String = 'oops'})"
+			exprs[i] = logical.NewFunctionExpression("abs", []logical.Expression{v})
+		default:
+			return ev.Outcome{Discard: true}
+		}
+		if a.Kind != "val" && a.Kind != "null" && firstErr < 0 {
+			firstErr = i
+		}
+		fields[i] = physical.SchemaField{Name: name + "_u", Type: st}
+	}
+	text := "COALESCE(" + strings.Join(texts, ", ") + ")"
+	o := ev.Outcome{NonTrivial: true, Classes: []string{fmt.Sprintf("lazy_%d_args", len(c.Args))}}
+	got, _, err := eng.EvalLogical(logical.NewCoalesce(exprs), fields, mapping, values, eng.Env(nil))
+	if err != nil && strings.HasPrefix(err.Error(), "typecheck: ") {
+		return ev.Fail("%s does not typecheck: %v", text, err)
+	}
+	switch {
+	case firstErr >= 0 && (firstVal < 0 || firstErr < firstVal):
+		// an erroring argument is reached before any non-NULL one: its error must surface
+		o.Classes = append(o.Classes, "lazy_error_before_first_non_null_must_raise", "lazy_raising_"+c.Args[firstErr].Kind)
+		if err == nil {
+			return ev.Fail("%s = %s, but argument #%d raises a run-time error and every argument before it is NULL: the error must not be swallowed", text, showV(got), firstErr)
+		}
+	case firstVal >= 0:
+		if firstErr >= 0 {
+			o.Classes = append(o.Classes, "lazy_error_after_first_non_null_must_not_be_evaluated", "lazy_skipped_"+c.Args[firstErr].Kind)
+		} else {
+			o.Classes = append(o.Classes, "lazy_no_erroring_argument")
+		}
+		if err != nil {
+			return ev.Fail("%s failed (%v), but its first non-NULL argument is #%d = %d: COALESCE yields its first non-NULL argument", text, err, firstVal, c.Args[firstVal].I)
+		}
+		if got.TypeID != octosql.TypeIDInt || got.Int != c.Args[firstVal].I {
+			return ev.Fail("%s = %s, want its first non-NULL argument #%d = %d", text, showV(got), firstVal, c.Args[firstVal].I)
+		}
+	default:
+		o.Classes = append(o.Classes, "lazy_all_null")
+		if err != nil || got.TypeID != octosql.TypeIDNull {
+			return ev.Fail("%s = %s (%v), want NULL", text, showV(got), err)
+		}
+	}
+	return o
+}
+
 func TestC13(t *testing.T) {
 	r := ev.New("C13", "exploration",
 		"arith: every overload of + - * / (binary and unary) on Int/Float/Duration/Time and abs sqrt ceil floor log2 log log10 pow, arguments from the shared edge pools (0, +-1, Min/MaxInt64, 2^53+-1, +-0.0, NaN, +-Inf, MaxFloat64, denormal min, times around/before the epoch with zones, durations incl. Min/Max) plus uniform draws; oracle = Go wrapping int64 / IEEE float64 arithmetic, time.Add, math.*; floats compared by bits (NaN = NaN), times by instant. "+
 			"conversions: int()/float() on every accepted kind, strings from a pool of almost-numbers (' 1', '+1', '1e3', '0x10', '', 'abc', 2^63, '1_000', 'Inf', 'nan', '1e400', full-width digits, ...) plus formatted and mutated numbers; success iff strconv.ParseInt(s,10,64)/ParseFloat(s,64) succeeds, else NULL; int(float) = truncation for |f| < 2^63 (outside only 'no crash'); string(x) is a String and int(string(i)) = i, float(string(f)) = f for finite f. "+
-			"unix_time: time_from_unix(i) is the instant i s after the epoch (calendar arithmetic) and time_to_unix brings i back for |i| < 1e11; Float: instant within 1 us of f (exact big-float comparison), whole floats round-trip, fractional ones give floor or ceil; time_to_unix(t) of generated times. "+
+			"unix_time: time_from_unix(i) is the instant i s after the epoch (calendar arithmetic) and is asserted for |i| < 1e11, and time_to_unix(time_from_unix(i)) = i for every int64 (2^53+-1, +-1e18, Min/MaxInt64, uniform draws); Float: instant within 1 us of f (exact big-float comparison), whole floats round-trip, fractional ones give floor or ceil; time_to_unix(t) of generated times. "+
 			"in_not_in: NULL-free lists and tuples (0-4 elements, nested to depth 1), x mostly an element or of the elements' kind; structural equality model (-0.0 = +0.0, instants, kinds distinct); comparisons involving NaN or Int-vs-equal-Float leave the answer open. "+
 			"index: l[i] for 0 <= i, including i = len, len+1, 2^31, MaxInt64. coalesce: 1-4 arguments, each NULL in 1/3 of the draws, families scalar / mixed scalars / lists / objects with the same fields in different orders (also nested) / objects with different field subsets / lists of objects / tuples / tuples of objects; result and first non-NULL argument compared after keying objects by field name (absent field = NULL field). "+
+			"coalesce_lazy: 2-5 arguments, each an Int, NULL, or an expression that raises at run time (100 / 0, panic('boom'), abs of a String under static type Int | String); an erroring argument after the first non-NULL one must not be evaluated (the value comes back), one before it must surface its error. "+
 			"non-trivial: a boundary value (0, -1, Min/MaxInt64, +-0.0, NaN, +-Inf, MaxFloat64, unparsable string, epoch) or an overload other than (Int,Int)/(Float,Float); every case of the non-arithmetic subs. distinct = canonical case JSON",
 		"integer division by zero, negative indexes and negative repeat counts are C07's and are not generated; String overloads of + and * are not part of the statement",
-		"out-of-range float->int conversion and |unix seconds| >= 1e11 are only required not to crash (Go leaves the conversion implementation-defined)")
+		"out-of-range float->int conversion and Float unix seconds >= 1e11 are only required not to crash (Go leaves the conversion implementation-defined)")
 	ev.Check(t, r, "arith", ev.N(120000, 2000000), genArith, arithProp)
 	ev.Check(t, r, "conversions", ev.N(60000, 1000000), genConv, convProp)
 	ev.Check(t, r, "unix_time", ev.N(25000, 400000), genUnix, unixProp)
 	ev.Check(t, r, "in_not_in", ev.N(40000, 600000), genIn, inProp)
 	ev.Check(t, r, "index", ev.N(20000, 300000), genIndex, indexProp)
 	ev.Check(t, r, "coalesce", ev.N(30000, 500000), genCoalesce, coalesceProp(r))
+	ev.Check(t, r, "coalesce_lazy", ev.N(15000, 250000), genLazy, lazyProp)
 }
